@@ -1,6 +1,7 @@
 package main
 
 import (
+	"strings"
 	"fmt"
 	"go/types"
 	"math/big"
@@ -46,6 +47,38 @@ type ErrV struct{ IsNil *Term }
 
 type TupleV struct{ Vs []Value }
 type NilV struct{}
+// RefV is a pointer to an object of a struct type declared outside the module (math/big.Int,
+// math/big.Float): the object is modelled by ONE ghost integer, its mathematical value, kept in
+// the ghost heap G.<type> at the object's identity ID.  Methods on it carry assumed (`ext:`)
+// contracts with `refset` effects.
+type RefV struct {
+	ID *Term
+	T  types.Type // pointee type
+}
+
+// extRefType: t is a pointer to a named struct type that is not declared in the module under verification.
+func extRefType(t types.Type) (types.Type, bool) {
+	p, ok := t.Underlying().(*types.Pointer)
+	if !ok {
+		return nil, false
+	}
+	n, ok := p.Elem().(*types.Named)
+	if !ok || n.Obj().Pkg() == nil {
+		return nil, false
+	}
+	if _, isStruct := n.Underlying().(*types.Struct); !isStruct {
+		return nil, false
+	}
+	if strings.HasPrefix(n.Obj().Pkg().Path(), modPath) {
+		return nil, false
+	}
+	return n, true
+}
+
+func refHeapName(t types.Type) string {
+	return "G." + types.TypeString(t, func(p *types.Package) string { return p.Path() })
+}
+
 type OpaqueV struct {
 	Desc string
 	T    types.Type
